@@ -306,6 +306,32 @@ theorem weightOf_unknown (wt : WType) (sym : String) (h : lookup sym = none) : w
 theorem elementTable_keys_nodup : (elementTable.map (·.1)).Nodup ∧ elementTable.length = 118 := by
   decide +kernel
 
+/-- whatever weight a symbol gets is the entry stored under *exactly* that symbol (no case folding, no truncation,
+no prefix match): `lookup` only ever returns an entry whose key equals the symbol -/
+theorem lookup_exact (sym : String) (v : Nat × Nat) (h : lookup sym = some v) : (sym, v) ∈ elementTable := by
+  unfold lookup at h
+  cases hf : elementTable.find? (fun e => e.1 == sym) with
+  | none => rw [hf] at h; simp at h
+  | some e =>
+    rw [hf] at h
+    have hv : e.2 = v := by simpa using h
+    have hk : e.1 = sym := by simpa using List.find?_some hf
+    have hm : e ∈ elementTable := List.mem_of_find?_eq_some hf
+    rw [← hk, ← hv]
+    exact hm
+
+/-- and every entry of the table is found under its key: an atom whose symbol is a key weighs that entry -/
+theorem weightOf_table_entry (sym : String) (z w : Nat) (h : (sym, z, w) ∈ elementTable) :
+    weightOf .atomicWeight sym = (w : Int) ∧ weightOf .atomicNumber sym = (z : Int) := by
+  have hl : lookup sym = some (z, w) := by
+    unfold lookup
+    rw [find_key_of_mem elementTable elementTable_keys_nodup.1 sym (z, w) h]
+    rfl
+  simp [weightOf, hl]
+
+example : ("ZN", 30, 65380000000) ∈ elementTable ∧ lookup "Zn" = none ∧ lookup "Z" = none ∧ lookup "ZNN" = none := by
+  decide +kernel
+
 example : weightOf .atomicWeight "C" = 12011000000 ∧ weightOf .atomicNumber "FE" = 26 ∧
     weightOf .atomicWeight "Fe" = 0 ∧ weightOf .atomicNumber "" = 0 := by decide +kernel
 
